@@ -4,15 +4,13 @@
   D is a predicate on (state, operation): a step is in D when none of the classes below applies.
   A history is in D when every one of its steps is (`histInD`).
 
-  Known findings (the unchanged code departs from the rule there; witnesses in
-  known_findings.json):
-    vanish_last_doc              deleting the last document of a collection that was not
-                                 explicitly created makes it (and possibly its database) vanish
-    vanish_last_index            same when its last index is dropped (drop_index / drop_indexes)
+  Known findings: none is left.
   Repaired in the library, no longer excluded (a recurrence is a violation):
+    vanish_last_doc, vanish_last_index (existence is recorded now: a collection exists from its
+    first insert / index creation / create_collection until it is dropped),
     rename_self_droptarget, filter_lists_uncreated, drop_database_foreign_handle,
     drop_collection_foreign_handle, system_create_existing
-  Scope limits:
+  Scope limits (all that D excludes):
     unobtained_handle            a handle used before it was obtained (cannot happen in Python)
     filter_falsy_name            list_collection_names(filter={'name': ''}): NotImplementedError
 -/
@@ -36,30 +34,21 @@ def handlesObtained (w : World) : Op → Bool
   | .dropDatabase _ (.byName _) => true
   | .dropDatabase _ (.byHandle h) => obtainedDb w h
 
-/-- a handle operation other than `drop` after which a collection that existed no longer does -/
-def vanishes (σ : Nat → Nat) (w : World) : Op → Bool
-  | .coll h o =>
-    let c := (w.store (σ h.client)).coll h.db h.coll
-    !o.isDrop && c.isCreated && !(collOp o c).1.isCreated
-  | _ => false
-
 def filterFalsy : Op → Bool
   | .listCollectionNames _ (some f) => f.falsy
   | _ => false
 
-def vanishClass : Op → String
-  | .coll _ (.deleteOne _) | .coll _ .deleteAll => "vanish_last_doc"
-  | _ => "vanish_last_index"
-
-/-- the exclusion classes that apply to this step -/
-def reasons (σ : Nat → Nat) (w : World) (op : Op) : List String :=
+/-- the exclusion classes that apply to this step (`σ` is kept in the signature: the classes are
+    per state and operation, and a class may depend on which store a client is built on) -/
+def reasons (_σ : Nat → Nat) (w : World) (op : Op) : List String :=
   (if handlesObtained w op then [] else ["unobtained_handle"]) ++
-  (if vanishes σ w op then [vanishClass op] else []) ++
   (if filterFalsy op then ["filter_falsy_name"] else [])
 
-/-- the step is in the domain of the refinement theorem -/
-def inD (σ : Nat → Nat) (w : World) (op : Op) : Bool :=
-  handlesObtained w op && !vanishes σ w op && !filterFalsy op
+/-- the step is in the domain of the refinement theorem: the scope of the model - handles are
+    obtained before they are used (always so in Python) and the filter of a listing has a
+    non-empty name -/
+def inD (_σ : Nat → Nat) (w : World) (op : Op) : Bool :=
+  handlesObtained w op && !filterFalsy op
 
 /-- every step of the history is in D at the state it is taken from -/
 def histInD (σ : Nat → Nat) : World → List Op → Bool
@@ -71,14 +60,6 @@ def histReasons (σ : Nat → Nat) : World → List Op → List String
   | _, [] => []
   | w, op :: ops => reasons σ w op ++ histReasons σ (MongoModel.Catalog.step σ w op).1 ops
 
-/-- scope of the model: handles are obtained before they are used (always so in Python) and the
-    filter of a listing has a non-empty name -/
-def inScope (w : World) (op : Op) : Bool := handlesObtained w op && !filterFalsy op
-
-def histInScope (σ : Nat → Nat) : World → List Op → Bool
-  | _, [] => true
-  | w, op :: ops => inScope w op && histInScope σ (MongoModel.Catalog.step σ w op).1 ops
-
 /-! ### Well-formed states and the refinement relation -/
 
 /-- a Python dict has each key once -/
@@ -86,10 +67,13 @@ def WFdb (db : DbStore) : Prop := (alKeys db).Nodup
 def WFs (s : Server) : Prop := (alKeys s).Nodup ∧ ∀ p ∈ s, WFdb p.2
 def SWF (st : SStore) : Prop := (alKeys st).Nodup
 
-/-- a state of the model is well formed when its dicts have unique keys and only validated
-    collection names are cached (every state reachable from `World.init` is, `wf_run`) -/
+/-- a state of the model is well formed when its dicts have unique keys, only validated
+    collection names are cached, and existence is recorded in every collection store
+    (`Coll.recorded`: one that holds a document or an index has `_is_force_created` set).
+    Every state reachable from `World.init` is (`wf_run`, `reachable_wf`). -/
 def WF (w : World) : Prop :=
-  (∀ i, WFs (w.store i)) ∧ ∀ c d n, n ∈ w.collCache c d → validName n = true
+  (∀ i, WFs (w.store i)) ∧ (∀ c d n, n ∈ w.collCache c d → validName n = true) ∧
+  ∀ i d n, ((w.store i).coll d n).recorded = true
 
 /-- the model state `w` and the oracle state `s` describe the same namespace: on every server
     the collections that count as created in `w` are exactly the ones that exist in `s`, with
